@@ -7,4 +7,5 @@ require golang.org/x/tools v0.29.0
 require (
 	golang.org/x/mod v0.22.0 // indirect
 	golang.org/x/sync v0.10.0 // indirect
+	gopkg.in/yaml.v2 v2.2.2
 )
